@@ -90,11 +90,14 @@ EXPORT int fprintf_s(FILE *restrict stream, const char *restrict fmt, ...) {
 
     errno = 0;
     wrap.arg = stream;
+    wrap.failed = 0;
     va_start(ap, fmt);
     ret = safec_vsnprintf_s(safec_out_fchar, "fprintf_s", (char*)&wrap, (rsize_t)-1, fmt, ap);
     va_end(ap);
 
-    if (unlikely(ret < 0 && errno != 0)) {
+    /* constraint violations have been reported where they were found:
+       what is left to report is a failing stream */
+    if (unlikely(ret < 0 && wrap.failed)) {
         char errstr[128] = "fprintf_s: ";
         strcat(errstr, strerror(errno));
         invoke_safe_str_constraint_handler(errstr, NULL, -ret);
